@@ -24,7 +24,9 @@ def _extra(cd):
         st.just("self"),
         st.sampled_from([b"\x00", b"\xff", b"\x80\x80\x80\x80\x80\x80", b"\x01\x00\x00"]),
     )
-    tz = st.sampled_from([0, 0, 60, -300, 330, 765, -720, "Europe/Paris", "Europe/Paris", "America/New_York", "America/St_Johns", "Australia/Lord_Howe", "Asia/Kathmandu"])
+    tz = st.sampled_from([0, 0, 60, -300, 330, 765, -720, "Europe/Paris", "Europe/Paris", "America/New_York", "America/St_Johns", "Australia/Lord_Howe", "Asia/Kathmandu",
+                           # UTC offsets that are not whole minutes (fixed, and Liberia before 1972: -0:44:30)
+                           ("s", 2670), ("s", -1), "Africa/Monrovia"])
     return st.tuples(tail, tz)
 
 
@@ -38,6 +40,8 @@ def _rezone(x, minutes: int):
             tz = zoneinfo.ZoneInfo(minutes)
         except Exception:
             return x
+    elif isinstance(minutes, (tuple, list)):
+        tz = datetime.timezone(datetime.timedelta(seconds=minutes[1]))
     else:
         tz = datetime.timezone(datetime.timedelta(minutes=minutes))
 
